@@ -115,6 +115,10 @@ Definition oc (x : closer) : nat := if owns (pc x) then 1 else 0.
 Definition wn (x : closer) : nat := if winner x then 1 else 0.
 Definition np (x : closer) : nat := if is_pending (pc x) then 1 else 0.
 Definition ld (d : dpc) : nat := if dlive d then 1 else 0.
+(* the closer got the descriptor (and whatever happened to it afterwards) *)
+Definition gonepc (p : cpc) : bool :=
+  match p with CSome | CClosing | CClosed | CCancelled | CDone => true | _ => false end.
+Definition gp (x : closer) : nat := if gonepc (pc x) then 1 else 0.
 Definition sh (f : fdst) : nat := match f with FShared => 1 | _ => 0 end.
 Definition mv (f : fdst) : nat := match f with FMoved => 1 | _ => 0 end.
 Definition cl (f : fdst) : nat := match f with FClosed => 1 | _ => 0 end.
@@ -126,7 +130,8 @@ Record Inv (g : cfg) (s : st) : Prop := mkInv {
   i_closes : closes s = cl (fd s);
   i_own_le : sumf oc (closers s) <= mv (fd s);
   i_own_ge : cancelled_close_closes g = true -> mv (fd s) <= sumf oc (closers s);
-  i_forg : unpolled_close_drops g = true -> forgotten s = 0
+  i_forg : unpolled_close_drops g = true -> forgotten s = 0;
+  i_gone : 1 <= sumf gp (closers s) -> strong s = 0
 }.
 
 Lemma inv_init g : Inv g init.
@@ -142,12 +147,12 @@ Ltac upd_facts :=
   end.
 
 Ltac crunch :=
-  unfold hc, oc, wn, np, ld, w_pc in *;
-  cbn [pc cf winner holds owns is_pending dlive sh mv cl negb] in *;
+  unfold hc, oc, wn, np, ld, gp, w_pc in *;
+  cbn [pc cf winner holds owns is_pending dlive gonepc sh mv cl negb] in *;
   repeat match goal with
   | H : pc ?x = _ |- _ => rewrite H in *
   end;
-  cbn [pc cf winner holds owns is_pending dlive sh mv cl negb] in *.
+  cbn [pc cf winner holds owns is_pending dlive gonepc sh mv cl negb] in *.
 
 Ltac inv_goal :=
   constructor;
@@ -164,7 +169,7 @@ Lemma do_dec_inv g s s1 i d :
   Inv g s -> nth_error (droppers s) i = Some d -> dlive d = true -> do_dec s = Some s1 ->
   Inv g (set_droppers s1 (upd (droppers s1) i (fun _ => DDone))).
 Proof.
-  intros [Hc H0 H1 Hcl Hle Hge Hf] Hi Hd Hdec. unfold do_dec in Hdec.
+  intros [Hc H0 H1 Hcl Hle Hge Hf Hgo] Hi Hd Hdec. unfold do_dec in Hdec.
   assert (Hld : ld d = 1) by (unfold ld; rewrite Hd; reflexivity).
   pose proof (sumf_nth_le ld _ _ _ Hi) as Hsum.
   destruct (strong s) as [|[|n]] eqn:Hs; [discriminate| |].
@@ -175,7 +180,7 @@ Qed.
 
 Lemma step_inv g s l s' : Inv g s -> step g s l = Some s' -> Inv g s'.
 Proof.
-  intros HI H. pose proof HI as [Hc H0 H1 Hcl Hle Hge Hf].
+  intros HI H. pose proof HI as [Hc H0 H1 Hcl Hle Hge Hf Hgo].
   destruct l; cbn [step] in H.
   - (* clone *) destruct (handles s) eqn:Hh; [discriminate|]. inversion H; subst s'. inv_goal.
   - (* op start *) destruct (handles s) eqn:Hh; [discriminate|]. inversion H; subst s'. inv_goal.
@@ -256,7 +261,7 @@ Proof. destruct f; cbn; tauto. Qed.
 Theorem closed_once g ls s :
   steps g init ls = Some s -> closes s <= 1 /\ (closes s = 1 <-> fd s = FClosed).
 Proof.
-  intros H. apply reachable_inv in H. destruct H as [_ _ _ Hcl _ _ _]. rewrite Hcl.
+  intros H. apply reachable_inv in H. destruct H as [_ _ _ Hcl _ _ _ _]. rewrite Hcl.
   destruct (fd s); cbn; split; try lia; split; intros; try lia; try reflexivity; discriminate.
 Qed.
 
@@ -275,7 +280,7 @@ Theorem closed_at_quiescence g ls s :
   unpolled_close_drops g = true -> cancelled_close_closes g = true ->
   steps g init ls = Some s -> quiescent s = true -> closes s = 1 /\ fd s = FClosed.
 Proof.
-  intros Hu Hcc H Hq. apply reachable_inv in H. destruct H as [Hc H0 H1 Hcl Hle Hge Hf].
+  intros Hu Hcc H Hq. apply reachable_inv in H. destruct H as [Hc H0 H1 Hcl Hle Hge Hf Hgo].
   apply quiescent_sums in Hq. destruct Hq as (Hh & Ho & Hd & Hhc & Hoc).
   specialize (Hge Hcc). specialize (Hf Hu).
   destruct (fd_cases (fd s)) as [(A & B & C & E)|[(A & B & C & E)|(A & B & C & E)]]; rewrite Hcl; try lia.
@@ -289,7 +294,7 @@ Theorem not_while_in_flight g ls s :
   steps g init ls = Some s -> fd s <> FShared ->
   strong s = 0 /\ ops s = 0 /\ handles s = 0 /\ sumf hc (closers s) = 0 /\ sumf ld (droppers s) = 0.
 Proof.
-  intros H Hfd. apply reachable_inv in H. destruct H as [Hc H0 H1 Hcl Hle Hge Hf].
+  intros H Hfd. apply reachable_inv in H. destruct H as [Hc H0 H1 Hcl Hle Hge Hf Hgo].
   assert (strong s = 0).
   { destruct (strong s) eqn:E; [reflexivity|]. assert (sh (fd s) = 1) by (apply H1; lia).
     destruct (fd s); cbn in *; try lia. congruence. }
@@ -305,7 +310,7 @@ Theorem unwrap_iff_unique g ls s c x :
     (pc x' = CSome -> fd s' = FMoved /\ strong s' = 0 /\ closes s' = 0) /\
     (pc x' <> CSome -> strong s' = strong s /\ fd s' = fd s /\ (pc x' = CReg \/ pc x' = CPending)).
 Proof.
-  intros H Hx Hpc. apply reachable_inv in H. destruct H as [Hc H0 H1 Hcl Hle Hge Hf].
+  intros H Hx Hpc. apply reachable_inv in H. destruct H as [Hc H0 H1 Hcl Hle Hge Hf Hgo].
   assert (Hhx : hc x = 1) by (unfold hc; destruct Hpc as [-> | ->]; reflexivity).
   pose proof (sumf_nth_le hc _ _ _ Hx) as Hsum.
   cbn [step]. unfold poll_step. rewrite Hx.
@@ -603,11 +608,11 @@ Ltac pret Hx :=
   cbn [closers]; first [rewrite (nth_upd_same _ _ _ _ Hx) | rewrite Hx];
   unfold returns; cbn [pc cf winner negb].
 
-Lemma poll_tail_run g k n w wk ww f cl h o fg cs dr c x wi :
+Lemma poll_tail_run g k n w w0 wk ww ww0 f cl h o fg cs dr c x wi :
   nth_error cs c = Some x ->
   poll_run g (S (S (S (S k)))) c
     (mk_st n w wk ww f cl h o fg (upd cs c (fun _ => mk_closer CTry1 (cf x) wi)) dr) =
-  poll_tail (mk_st n w wk ww f cl h o fg cs dr) c x w ww wi.
+  poll_tail (mk_st n w0 wk ww0 f cl h o fg cs dr) c x w ww wi.
 Proof.
   intros Hx. unfold poll_tail. cbn [strong waits waker wwoken fd closes handles ops forgotten closers droppers].
   pstep Hx. destruct (n =? 1) eqn:E.
@@ -644,4 +649,458 @@ Proof.
   - (* CClosed *)
     pstep Hx. rewrite Hpc. pnorm. pret Hx.
     rewrite (upd_const _ _ _ _ Hx). reflexivity.
+Qed.
+
+(* ---- the waiting closer is woken (unsync scheduler) -------------------- *)
+
+Lemma np_le_hc x : np x <= hc x.
+Proof. unfold np, hc. destruct (pc x); cbn; lia. Qed.
+Lemma np_le_wp x : np x <= wp x.
+Proof. unfold np, wp. destruct (pc x); cbn; lia. Qed.
+
+Lemma strong0_no_pending g s : Inv g s -> strong s = 0 -> sumf np (closers s) = 0.
+Proof.
+  intros [Hc _ _ _ _ _ _ _] H0. pose proof (sumf_le np hc (closers s) np_le_hc). lia.
+Qed.
+
+Lemma pending_waits s : WInv s -> 1 <= sumf np (closers s) -> waits s = true.
+Proof.
+  unfold WInv. intros HW H. pose proof (sumf_le np wp (closers s) np_le_wp).
+  destruct (waits s); [reflexivity|lia].
+Qed.
+
+Record UInv (g : cfg) (s : st) : Prop := mkU {
+  u_inv : Inv g s;
+  u_w : WInv s;
+  u_done : forallb nd (droppers s) = true;
+  u_reg : 1 <= sumf np (closers s) -> waker s = true \/ wwoken s = true;
+  u_woken : 1 <= sumf np (closers s) -> strong s = 1 -> wwoken s = true
+}.
+
+Lemma uinv_init g : UInv g init.
+Proof. constructor; [apply inv_init|unfold WInv; cbn; lia|reflexivity|cbn; lia|cbn; lia]. Qed.
+
+(* the post-state of a macro step whose Shared is gone satisfies the wake part trivially *)
+Lemma uinv_strong0 g s :
+  Inv g s -> WInv s -> forallb nd (droppers s) = true -> strong s = 0 -> UInv g s.
+Proof.
+  intros HI HW Hd H0. pose proof (strong0_no_pending g s HI H0).
+  constructor; auto; intros; lia.
+Qed.
+
+Lemma drop_fin_U g s1 ds :
+  droppers s1 = ds ++ [DCount] -> forallb nd ds = true -> Inv g s1 -> WInv s1 ->
+  (1 <= sumf np (closers s1) -> waker s1 = true \/ wwoken s1 = true) ->
+  forallb nd (droppers (finish_drops g s1)) = true /\
+  (1 <= sumf np (closers (finish_drops g s1)) ->
+     waker (finish_drops g s1) = true \/ wwoken (finish_drops g s1) = true) /\
+  (1 <= sumf np (closers (finish_drops g s1)) -> strong (finish_drops g s1) = 1 ->
+     wwoken (finish_drops g s1) = true).
+Proof.
+  intros Hdr Hds HI HW Hreg.
+  pose proof (pending_waits s1 HW) as Hwaits.
+  destruct HI as [Hc H0 H1 Hcl Hle Hge Hf Hgo].
+  destruct s1 as [n w wk ww f c h o fg cs dr]. cbn [droppers] in Hdr. subst dr.
+  cbn [strong waits waker wwoken fd closes handles ops forgotten closers droppers] in *.
+  rewrite sumf_app in Hc. cbn in Hc.
+  assert (Hn : 1 <= n) by lia.
+  assert (Hfd : n = 1 -> f = FShared).
+  { intros E. assert (sh f = 1) by (apply H1; lia). destruct f; cbn in *; try lia. reflexivity. }
+  clear Hc H0 H1 Hgo.
+  rewrite (drop_run g n w wk ww f c h o fg cs ds Hn Hfd).
+  cbn [strong waits waker wwoken fd closes handles ops forgotten closers droppers].
+  split; [|split].
+  - rewrite forallb_app, Hds. reflexivity.
+  - intros Hp. specialize (Hreg Hp). specialize (Hwaits Hp). subst w.
+    destruct (n =? 2); cbn [andb]; [|exact Hreg].
+    right. destruct Hreg as [-> | ->]; [apply orb_true_r|reflexivity].
+  - intros Hp E. specialize (Hreg Hp). specialize (Hwaits Hp). subst w.
+    assert (n = 2) by lia. subst n. cbn [Nat.eqb andb].
+    destruct Hreg as [-> | ->]; [apply orb_true_r|reflexivity].
+Qed.
+
+Lemma ustep_inv g s l s' : Inv g s -> ustep g s l = Some s' -> Inv g s'.
+Proof. intros HI H. destruct (ustep_steps _ _ _ _ H) as [ls Hls]. eapply steps_inv; eauto. Qed.
+Lemma ustep_winv g s l s' : WInv s -> ustep g s l = Some s' -> WInv s'.
+Proof. intros HI H. destruct (ustep_steps _ _ _ _ H) as [ls Hls]. eapply winv_steps; eauto. Qed.
+
+Lemma nd_app_count ds : forallb nd ds = true -> forallb nd (ds ++ [DCount]) = false.
+Proof. intros H. rewrite forallb_app, H. reflexivity. Qed.
+
+(* a macro step = fine step [lab] that starts a Drop for SharedFd, run to its end *)
+Lemma spawned_U g s lab s1 :
+  UInv g s -> step g s lab = Some s1 ->
+  droppers s1 = droppers s ++ [DCount] ->
+  waker s1 = waker s -> wwoken s1 = wwoken s -> sumf np (closers s1) <= sumf np (closers s) ->
+  Inv g (finish_drops g s1) -> WInv (finish_drops g s1) ->
+  UInv g (finish_drops g s1).
+Proof.
+  intros [HI HW Hd Hreg Hwok] Hstep Hdr Hwk Hww Hnp HI' HW'.
+  assert (HI1 : Inv g s1) by exact (step_inv g s lab s1 HI Hstep).
+  assert (HW1 : WInv s1) by exact (winv_step g s lab s1 HW Hstep).
+  assert (Hpre : 1 <= sumf np (closers s1) -> waker s1 = true \/ wwoken s1 = true).
+  { intros Hp. rewrite Hwk, Hww. apply Hreg. lia. }
+  destruct (drop_fin_U g s1 (droppers s) Hdr Hd HI1 HW1 Hpre) as (A & B & C).
+  constructor; assumption.
+Qed.
+
+Lemma ustep_poll_eq g s c :
+  ustep g s (UPoll c) = if pollable s c then Some (finish_drops g (poll_run g 6 c s)) else None.
+Proof. reflexivity. Qed.
+
+Theorem ustep_uinv g s l s' :
+  closer_release_wakes g = true -> UInv g s -> ustep g s l = Some s' -> UInv g s'.
+Proof.
+  intros Hflag HU H.
+  assert (HI' : Inv g s') by (eapply ustep_inv; [apply HU|exact H]).
+  assert (HW' : WInv s') by (eapply ustep_winv; [apply HU|exact H]).
+  pose proof HU as [HI HW Hd Hreg Hwok].
+  pose proof HI as [Hc H0 H1 Hcl Hle Hge Hf Hgo].
+  destruct l;
+    match type of H with
+    | ustep _ _ (UPoll _) = _ => rewrite ustep_poll_eq in H
+    | _ => unfold ustep in H
+    end.
+  - (* clone *)
+    cbn [step] in H. destruct (handles s) eqn:Hh; [discriminate|]. inversion H; subst s'.
+    constructor; auto; cbn [strong waker wwoken closers]; intros; auto. lia.
+  - (* op start *)
+    cbn [step] in H. destruct (handles s) eqn:Hh; [discriminate|]. inversion H; subst s'.
+    constructor; auto; cbn [strong waker wwoken closers]; intros; auto. lia.
+  - (* op finish *)
+    destruct (step g s LOpFinish) as [s1|] eqn:E; [|discriminate]. inversion H; subst s'.
+    eapply spawned_U; eauto; cbn [step] in E; destruct (ops s); try discriminate; inversion E; subst s1;
+      cbn; auto.
+  - (* drop handle *)
+    destruct (step g s LDropHandle) as [s1|] eqn:E; [|discriminate]. inversion H; subst s'.
+    eapply spawned_U; eauto; cbn [step] in E; destruct (handles s); try discriminate; inversion E; subst s1;
+      cbn; auto.
+  - (* take *)
+    cbn [step] in H. destruct (handles s) eqn:Hh; [discriminate|]. inversion H; subst s'.
+    constructor; auto; cbn [strong waker wwoken closers droppers] in *; rewrite sumf_app;
+      destruct close; cbn; rewrite ?Nat.add_0_r; auto.
+  - (* poll *)
+    destruct (pollable s c) eqn:Hp; [|discriminate].
+    assert (Es : finish_drops g (poll_run g 6 c s) = s') by (clear - H; congruence).
+    clear H. subst s'.
+    pose proof Hp as Hp'. unfold pollable in Hp'.
+    destruct (nth_error (closers s) c) as [x|] eqn:Hx; [|discriminate].
+    rewrite (poll_run_spec g s c x Hx Hp) in *.
+    assert (Hstepc : exists s1, step g s (LPoll c) = Some s1).
+    { cbn [step]. unfold poll_step. rewrite Hx. destruct (pc x); try discriminate; eauto. }
+    unfold poll_result in *.
+    assert (Htail : forall wt ww' wi,
+              Inv g (finish_drops g (poll_tail s c x wt ww' wi)) ->
+              WInv (finish_drops g (poll_tail s c x wt ww' wi)) ->
+              np x = 0 \/ ww' = false ->
+              (1 <= sumf np (closers s) -> np x = 0 -> ww' = wwoken s) ->
+              UInv g (finish_drops g (poll_tail s c x wt ww' wi))).
+    { intros wt ww' wi. unfold poll_tail. destruct (strong s =? 1) eqn:E1.
+      - rewrite finish_drops_idle by exact Hd. intros A B _ _. apply uinv_strong0; auto.
+      - rewrite finish_drops_idle by exact Hd. intros A B Hx0 Hww. apply Nat.eqb_neq in E1.
+        constructor; auto; cbn [strong waker wwoken closers]; intros; try (left; reflexivity); try lia. }
+    destruct (pc x) eqn:Hpc; try discriminate.
+    + (* CUnpolled *)
+      destruct (waits s) eqn:Ewt.
+      * rewrite Hflag in *. cbn [negb] in *.
+        destruct Hstepc as [s1 Hs1]. pose proof Hs1 as Hs1'. cbn [step] in Hs1'. unfold poll_step in Hs1'.
+        rewrite Hx, Hpc in Hs1'. unfold first_poll in Hs1'. rewrite Ewt, Hflag in Hs1'. cbn [negb] in Hs1'.
+        rewrite (upd_const _ _ _ _ Hx) in Hs1'. unfold w_pc in Hs1'. inversion Hs1'. clear Hs1'.
+        rewrite H2 in *.
+        eapply spawned_U; eauto; subst s1; cbn [droppers waker wwoken closers spawn_drop set_droppers set_closers]; auto.
+        pose proof (sumf_upd np (fun _ => mk_closer CGone (cf x) (winner x)) _ _ _ Hx) as Hs.
+        unfold np in *. rewrite Hpc in Hs. cbn in Hs. lia.
+      * apply Htail; auto.
+        -- left. unfold np. rewrite Hpc. reflexivity.
+    + (* CCreated *)
+      destruct (waits s) eqn:Ewt.
+      * rewrite Hflag in *. cbn [negb] in *.
+        destruct Hstepc as [s1 Hs1]. pose proof Hs1 as Hs1'. cbn [step] in Hs1'. unfold poll_step in Hs1'.
+        rewrite Hx, Hpc in Hs1'. unfold first_poll in Hs1'. rewrite Ewt, Hflag in Hs1'. cbn [negb] in Hs1'.
+        rewrite (upd_const _ _ _ _ Hx) in Hs1'. unfold w_pc in Hs1'. inversion Hs1'. clear Hs1'.
+        rewrite H2 in *.
+        eapply spawned_U; eauto; subst s1; cbn [droppers waker wwoken closers spawn_drop set_droppers set_closers]; auto.
+        pose proof (sumf_upd np (fun _ => mk_closer CGone (cf x) (winner x)) _ _ _ Hx) as Hs.
+        unfold np in *. rewrite Hpc in Hs. cbn in Hs. lia.
+      * apply Htail; auto.
+        -- left. unfold np. rewrite Hpc. reflexivity.
+    + (* CPending *)
+      apply Htail; auto. intros _ E. unfold np in E. rewrite Hpc in E. discriminate.
+    + (* CClosing *)
+      rewrite finish_drops_idle in * by exact Hd.
+      assert (strong s = 0).
+      { apply Hgo. pose proof (sumf_nth_le gp _ _ _ Hx) as Hg. unfold gp in Hg at 1. rewrite Hpc in Hg. exact Hg. }
+      apply uinv_strong0; auto.
+    + (* CClosed *)
+      rewrite finish_drops_idle in * by exact Hd.
+      assert (strong s = 0).
+      { apply Hgo. pose proof (sumf_nth_le gp _ _ _ Hx) as Hg. unfold gp in Hg at 1. rewrite Hpc in Hg. exact Hg. }
+      apply uinv_strong0; auto.
+  - (* future dropped *)
+    destruct (step g s (LFutDrop c)) as [s1|] eqn:E; [|discriminate]. inversion H; subst s'. clear H.
+    pose proof E as E'. cbn [step] in E'. unfold fut_drop in E'.
+    destruct (nth_error (closers s) c) as [x|] eqn:Hx; [|discriminate].
+    assert (Hnpx : forall p, sumf np (upd (closers s) c (w_pc p)) <= sumf np (closers s) + (if is_pending p then 1 else 0)).
+    { intros p. pose proof (sumf_upd np (w_pc p) _ _ _ Hx) as Hs.
+      assert (np (w_pc p x) = if is_pending p then 1 else 0) by reflexivity. lia. }
+    destruct (pc x) eqn:Hpc; try discriminate.
+    + (* CUnpolled *)
+      destruct (unpolled_close_drops g) eqn:Eu.
+      * inversion E'. rewrite H2 in *.
+        eapply spawned_U; eauto; subst s1; cbn [droppers waker wwoken closers spawn_drop set_droppers set_closers]; auto.
+        specialize (Hnpx CGone). cbn in Hnpx. lia.
+      * inversion E'. rewrite H2 in *. rewrite finish_drops_idle in * by (subst s1; exact Hd).
+        subst s1. specialize (Hnpx CGone). cbn in Hnpx.
+        constructor; auto; cbn [strong waker wwoken closers set_closers] in *; intros;
+          [apply Hreg; lia|apply Hwok; [lia|assumption]].
+    + (* CCreated *)
+      rewrite Hflag in E'. cbn [negb] in E'. inversion E'. rewrite H2 in *.
+      eapply spawned_U; eauto; subst s1; cbn [droppers waker wwoken closers spawn_drop set_droppers set_closers]; auto.
+      specialize (Hnpx CGone). cbn in Hnpx. lia.
+    + (* CPending *)
+      rewrite Hflag in E'. cbn [negb] in E'. inversion E'. rewrite H2 in *.
+      eapply spawned_U; eauto; subst s1; cbn [droppers waker wwoken closers spawn_drop set_droppers set_closers]; auto.
+      specialize (Hnpx CGone). cbn in Hnpx. lia.
+    + (* CClosing *)
+      inversion E'. rewrite H2 in *. rewrite finish_drops_idle in * by (subst s1; exact Hd).
+      subst s1. specialize (Hnpx CCancelled). cbn in Hnpx.
+      constructor; auto; cbn [strong waker wwoken closers set_closers] in *; intros;
+        [apply Hreg; lia|apply Hwok; [lia|assumption]].
+    + (* CClosed *)
+      inversion E'. rewrite H2 in *. rewrite finish_drops_idle in * by (subst s1; exact Hd).
+      subst s1. specialize (Hnpx CDone). cbn in Hnpx.
+      constructor; auto; cbn [strong waker wwoken closers set_closers] in *; intros;
+        [apply Hreg; lia|apply Hwok; [lia|assumption]].
+  - (* owner drop *)
+    cbn [step] in H. destruct (nth_error (closers s) c) as [x|] eqn:Hx; [|discriminate].
+    destruct (pc x) eqn:Hpc; try discriminate. destruct (cf x); [discriminate|]. inversion H; subst s'.
+    assert (strong s = 0).
+    { apply Hgo. pose proof (sumf_nth_le gp _ _ _ Hx) as Hg. unfold gp in Hg at 1. rewrite Hpc in Hg. exact Hg. }
+    apply uinv_strong0; auto.
+  - (* close op runs *)
+    cbn [step] in H. destruct (nth_error (closers s) c) as [x|] eqn:Hx; [|discriminate].
+    assert (Hs0 : gonepc (pc x) = true -> strong s = 0).
+    { intros Eg. apply Hgo. pose proof (sumf_nth_le gp _ _ _ Hx) as Hg. unfold gp in Hg at 1. rewrite Eg in Hg. exact Hg. }
+    destruct (pc x) eqn:Hpc; try discriminate; inversion H; subst s'; apply uinv_strong0; auto; apply Hs0; reflexivity.
+  - (* close op cancelled *)
+    cbn [step] in H. destruct (nth_error (closers s) c) as [x|] eqn:Hx; [|discriminate].
+    assert (Hs0 : gonepc (pc x) = true -> strong s = 0).
+    { intros Eg. apply Hgo. pose proof (sumf_nth_le gp _ _ _ Hx) as Hg. unfold gp in Hg at 1. rewrite Eg in Hg. exact Hg. }
+    destruct (pc x) eqn:Hpc; try discriminate.
+    destruct (cancelled_close_closes g); inversion H; subst s'; apply uinv_strong0; auto; apply Hs0; reflexivity.
+  - (* try_unwrap *)
+    cbn [step] in H. destruct (handles s) eqn:Hh; [discriminate|].
+    destruct (strong s =? 1) eqn:E1; inversion H; subst s'; [|exact HU].
+    apply uinv_strong0; auto.
+Qed.
+
+Lemma usteps_uinv g ls : forall s s',
+  closer_release_wakes g = true -> UInv g s -> usteps g s ls = Some s' -> UInv g s'.
+Proof.
+  induction ls as [|l r IH]; cbn [usteps]; intros s s' Hf HU H.
+  - inversion H; subst; exact HU.
+  - destruct (ustep g s l) as [s1|] eqn:E; [|discriminate]. eapply IH; [exact Hf| |exact H].
+    eapply ustep_uinv; eauto.
+Qed.
+
+Lemma reachable_uinv g ls s :
+  closer_release_wakes g = true -> usteps g init ls = Some s -> UInv g s.
+Proof. intros Hf H. eapply usteps_uinv; [exact Hf|apply uinv_init|exact H]. Qed.
+
+Lemma pending_count s :
+  existsb (fun x => is_pending (pc x)) (closers s) = true -> 1 <= sumf np (closers s).
+Proof.
+  apply sumf_pos_existsb. intros x Hx. unfold np. rewrite Hx. lia.
+Qed.
+
+(* unsync: once the waiting closer is the only owner its wake-up is pending *)
+Theorem closer_woken g ls s :
+  closer_release_wakes g = true -> usteps g init ls = Some s ->
+  existsb (fun x => is_pending (pc x)) (closers s) = true -> strong s = 1 -> wwoken s = true.
+Proof.
+  intros Hf H Hp E. destruct (reachable_uinv g ls s Hf H) as [_ _ _ _ Hw].
+  apply Hw; [apply pending_count; exact Hp|exact E].
+Qed.
+
+Theorem never_stranded g ls s :
+  closer_release_wakes g = true -> usteps g init ls = Some s -> stranded s = false.
+Proof.
+  intros Hf H. destruct (stranded s) eqn:E; [|reflexivity]. unfold stranded in E.
+  repeat (apply andb_true_iff in E; destruct E as [E ?]).
+  apply Nat.eqb_eq in H3. rewrite (closer_woken g ls s Hf H E H3) in H4. discriminate.
+Qed.
+
+(* ... and the poll that follows obtains the descriptor *)
+Theorem unique_poll_ready g ls s c x :
+  closer_release_wakes g = true -> usteps g init ls = Some s ->
+  nth_error (closers s) c = Some x -> pc x = CPending -> strong s = 1 ->
+  exists s' x', ustep g s (UPoll c) = Some s' /\ nth_error (closers s') c = Some x' /\
+                pc x' = (if cf x then CClosing else CSome) /\ fd s' = FMoved /\ strong s' = 0 /\
+                closes s' = 0.
+Proof.
+  intros Hf H Hx Hpc E. destruct (reachable_uinv g ls s Hf H) as [HI _ Hd _ _].
+  assert (Hp : pollable s c = true) by (unfold pollable; rewrite Hx, Hpc; reflexivity).
+  rewrite ustep_poll_eq, Hp. rewrite (poll_run_spec g s c x Hx Hp).
+  unfold poll_result. rewrite Hpc. unfold poll_tail. rewrite E. cbn [Nat.eqb].
+  rewrite finish_drops_idle by exact Hd.
+  eexists. eexists. split; [reflexivity|]. cbn [closers fd strong closes].
+  split; [apply nth_upd_same; exact Hx|]. cbn [pc]. repeat split.
+  destruct HI as [_ _ H1 Hcl _ _ _ _]. assert (sh (fd s) = 1) by (apply H1; lia).
+  rewrite Hcl. destruct (fd s); cbn in *; lia.
+Qed.
+
+(* never forgotten (the handle inside an unpolled close() future is dropped) *)
+Theorem never_forgotten g ls s :
+  unpolled_close_drops g = true -> steps g init ls = Some s -> forgotten s = 0.
+Proof. intros Hu H. apply reachable_inv in H. destruct H. auto. Qed.
+
+(* ---------------------------------------------------------------------- *)
+(* Part 2: descriptor-producing operations, by exhaustive reflection        *)
+
+Definition allb (f : bool -> bool) : bool := f true && f false.
+Lemma allb_spec f : allb f = true -> forall b, f b = true.
+Proof. unfold allb. intros H b. apply andb_true_iff in H. destruct H, b; assumption. Qed.
+
+Definition all_pf (f : pfut -> bool) : bool := f PIdle && f PSubmitted && f PDropped && f PTaken.
+Lemma all_pf_spec f : all_pf f = true -> forall x, f x = true.
+Proof. unfold all_pf. intros H x. repeat (apply andb_true_iff in H; destruct H as [H ?]). destruct x; assumption. Qed.
+
+Definition all_pk (f : pkern -> bool) : bool :=
+  f KNone && f KQueued && f KInFlight && f KDoneOk && f KDoneErr && f KReaped.
+Lemma all_pk_spec f : all_pk f = true -> forall x, f x = true.
+Proof. unfold all_pk. intros H x. repeat (apply andb_true_iff in H; destruct H as [H ?]). destruct x; assumption. Qed.
+
+Definition all_pd (f : pfd -> bool) : bool :=
+  f PNone && f PKernel && f POp && f PCaller && f PClosed && f PLost.
+Lemma all_pd_spec f : all_pd f = true -> forall x, f x = true.
+Proof. unfold all_pd. intros H x. repeat (apply andb_true_iff in H; destruct H as [H ?]). destruct x; assumption. Qed.
+
+Definition all_pl (f : plabel -> bool) : bool :=
+  f PPoll && f PFutDrop && f PReady && f PDrive && f PCallerDrop && f PDriverDrop.
+Lemma all_pl_spec f : all_pl f = true -> forall x, f x = true.
+Proof. unfold all_pl. intros H x. repeat (apply andb_true_iff in H; destruct H as [H ?]). destruct x; assumption. Qed.
+
+Definition all_pst (f : pst -> bool) : bool :=
+  allb (fun a => allb (fun b => all_pf (fun c => all_pk (fun d => all_pd (fun e =>
+  allb (fun r => allb (fun q => allb (fun u => allb (fun v => allb (fun w =>
+    f (mk_pst a b c d e r q u v w))))))))))).
+Lemma all_pst_spec f : all_pst f = true -> forall s, f s = true.
+Proof.
+  unfold all_pst. intros H [a b c d e r q u v w].
+  pose proof (allb_spec _ H a) as H1. cbv beta in H1.
+  pose proof (allb_spec _ H1 b) as H2. cbv beta in H2.
+  pose proof (all_pf_spec _ H2 c) as H3. cbv beta in H3.
+  pose proof (all_pk_spec _ H3 d) as H4. cbv beta in H4.
+  pose proof (all_pd_spec _ H4 e) as H5. cbv beta in H5.
+  pose proof (allb_spec _ H5 r) as H6. cbv beta in H6.
+  pose proof (allb_spec _ H6 q) as H7. cbv beta in H7.
+  pose proof (allb_spec _ H7 u) as H8. cbv beta in H8.
+  pose proof (allb_spec _ H8 v) as H9. cbv beta in H9.
+  exact (allb_spec _ H9 w).
+Qed.
+
+Definition pk_pending (k : pkern) : bool :=
+  match k with KQueued | KInFlight | KDoneOk | KDoneErr => true | _ => false end.
+
+(* the bookkeeping invariant of a producing operation *)
+Definition pinv (s : pst) : bool :=
+  (* a lost descriptor only through the io_uring Driver::drop drain *)
+  (match pd s with PLost => uring s && negb (drain_adopts s) && negb (driver_alive s) | _ => true end)
+  (* a descriptor only the kernel's completion names: the completion will be processed *)
+  && (match pd s with PKernel => match pk s with KDoneOk => drv_ref s && driver_alive s | _ => false end | _ => true end)
+  (* no completion carries a descriptor unless it is the PKernel one *)
+  && (match pk s with KDoneOk => match pd s with PKernel => true | _ => false end | _ => true end)
+  (* an adopted descriptor lives in storage somebody still references *)
+  && (match pd s with POp => user_ref s || drv_ref s | _ => true end)
+  && (match pd s with PCaller => match pf s with PTaken => true | _ => false end | _ => true end)
+  && (implb (user_ref s) (match pf s with PSubmitted => true | _ => false end))
+  && (implb (drv_ref s) (pk_pending (pk s)))
+  && (implb (pk_pending (pk s)) (drv_ref s))
+  && (implb (negb (driver_alive s)) (negb (pk_pending (pk s))))
+  && (match pf s with PIdle => match pk s with KNone => match pd s with PNone => true | _ => false end | _ => false end | _ => true end)
+  (* the polling driver completes a request inside the driver: no unreaped completion *)
+  && (implb (negb (uring s)) (match pk s with KNone | KInFlight | KReaped => true | _ => false end))
+  && (match pf s with PSubmitted => user_ref s | _ => true end).
+
+Lemma pinv_init ur ad rdy : pinv (pinit ur ad rdy) = true.
+Proof. destruct ur, ad, rdy; reflexivity. Qed.
+
+Lemma pstep_pinv_all :
+  all_pst (fun s => implb (pinv s)
+     (all_pl (fun l => match pstep s l with Some s' => pinv s' | None => true end))) = true.
+Proof. vm_compute. reflexivity. Qed.
+
+Lemma pstep_pinv s l s' : pinv s = true -> pstep s l = Some s' -> pinv s' = true.
+Proof.
+  intros HI H. pose proof (all_pst_spec _ pstep_pinv_all s) as A. cbv beta in A.
+  rewrite HI in A. cbn [implb] in A. pose proof (all_pl_spec _ A l) as B. cbv beta in B.
+  rewrite H in B. exact B.
+Qed.
+
+Lemma psteps_pinv ls : forall s s', pinv s = true -> psteps s ls = Some s' -> pinv s' = true.
+Proof.
+  induction ls as [|l r IH]; cbn [psteps]; intros s s' HI H.
+  - inversion H; subst; exact HI.
+  - destruct (pstep s l) as [s1|] eqn:E; [|discriminate]. eapply IH; [|exact H]. eapply pstep_pinv; eauto.
+Qed.
+
+(* what the invariant says about a single state *)
+Definition pgood (s : pst) : bool :=
+  (* lost only by the known route *)
+  (match pd s with PLost => uring s && negb (drain_adopts s) && negb (driver_alive s) | _ => true end)
+  (* settled: the descriptor, if one was made, is closed (or lost by the known route) *)
+  && (implb (p_settled s) (match pd s with PNone | PClosed | PLost => true | _ => false end))
+  (* open and not held by the program: the driver still has the means to deal with it *)
+  && (match pd s with
+      | PKernel => match pk s with KDoneOk => driver_alive s | _ => false end
+      | POp => user_ref s || drv_ref s
+      | _ => true
+      end).
+
+Lemma pinv_pgood_all : all_pst (fun s => implb (pinv s) (pgood s)) = true.
+Proof. vm_compute. reflexivity. Qed.
+
+Theorem produced_fd ur ad rdy ls s :
+  psteps (pinit ur ad rdy) ls = Some s -> pgood s = true.
+Proof.
+  intros H. pose proof (psteps_pinv ls _ _ (pinv_init ur ad rdy) H) as HI.
+  pose proof (all_pst_spec _ pinv_pgood_all s) as A. cbv beta in A. rewrite HI in A. exact A.
+Qed.
+
+(* the driver kind and the drain behaviour are parameters of a run *)
+Lemma pstep_cfg_all :
+  all_pst (fun s0 => all_pl (fun l =>
+    match pstep s0 l with
+    | Some s1 => Bool.eqb (uring s1) (uring s0) && Bool.eqb (drain_adopts s1) (drain_adopts s0)
+    | None => true
+    end)) = true.
+Proof. vm_compute. reflexivity. Qed.
+
+Lemma pstep_cfg s0 l s1 :
+  pstep s0 l = Some s1 -> uring s1 = uring s0 /\ drain_adopts s1 = drain_adopts s0.
+Proof.
+  intros Hs. pose proof (all_pst_spec _ pstep_cfg_all s0) as A. cbv beta in A.
+  pose proof (all_pl_spec _ A l) as B. cbv beta in B. rewrite Hs in B.
+  apply andb_true_iff in B. destruct B as [B1 B2]. apply eqb_prop in B1. apply eqb_prop in B2. auto.
+Qed.
+
+Lemma psteps_cfg ls : forall s0 s,
+  psteps s0 ls = Some s -> uring s = uring s0 /\ drain_adopts s = drain_adopts s0.
+Proof.
+  induction ls as [|l r IH]; cbn [psteps]; intros s0 s H.
+  - inversion H; subst. auto.
+  - destruct (pstep s0 l) as [s1|] eqn:E; [|discriminate].
+    destruct (pstep_cfg _ _ _ E) as [A B]. destruct (IH _ _ H) as [C D]. split; congruence.
+Qed.
+
+(* while the driver lives, and on the polling driver always, nothing is lost *)
+Theorem produced_fd_not_lost ur ad rdy ls s :
+  psteps (pinit ur ad rdy) ls = Some s ->
+  pd s = PLost -> ur = true /\ ad = false /\ driver_alive s = false.
+Proof.
+  intros H E. pose proof (produced_fd _ _ _ _ _ H) as G. unfold pgood in G.
+  rewrite E in G. repeat (apply andb_true_iff in G; destruct G as [G ?]).
+  destruct (psteps_cfg _ _ _ H) as [Hu Ha]. cbn [pinit uring drain_adopts] in Hu, Ha.
+  rewrite Hu in G. rewrite Ha in H3.
+  destruct ad; [discriminate|]. destruct (driver_alive s); [discriminate|]. auto.
 Qed.
